@@ -214,12 +214,14 @@ Fixpoint ubound (fuel : nat) (F : list fact) (o : operand) : option Z :=
         end
     end
   end.
-Definition UFUEL : nat := 8.
+(* 8 for every concrete F; written so that it is not a constructor for a variable F: otherwise the kernel's conversion
+   unfolds the six-way recursion of `ubound` when it compares two occurrences in a proof *)
+Definition UFUEL_OF (F : list fact) : nat := (8 + List.length F) - List.length F.
 
 (* pointer = base of allocation id + o + d with 0 <= d <= u *)
 Definition try_bp (F : list fact) (asz : Z -> Z) (b i : operand) : option (Z * Z * Z) :=
   match resolve RFUEL F asz b with
-  | (Some id, Some o) => match ubound UFUEL F i with Some u => Some (id, o, u) | None => None end
+  | (Some id, Some o) => match ubound (UFUEL_OF F) F i with Some u => Some (id, o, u) | None => None end
   | _ => None
   end.
 Definition bounded_ptr (F : list fact) (asz : Z -> Z) (p : operand) : option (Z * Z * Z) :=
